@@ -78,7 +78,8 @@ def sweep_main():
     from replay import runners
     mod = importlib.import_module(f"contracts.{meta['prop']}")
     c = next(x for x in mod.REGISTRY.all + list(getattr(mod, "BOUNDED_CONTRACTS", [])) if x.name == meta["contract"])
-    out = {"cases": 0, "evaluations": 0, "failures": [], "samples": []}
+    out = {"cases": 0, "evaluations": 0, "failures": [], "samples": [], "distinct": 0}
+    _seen = set()
     for model in runners.SEARCH[rid](meta, int(seed), int(budget)):
         if out["cases"] >= int(budget):
             break
@@ -87,6 +88,11 @@ def sweep_main():
         except Exception:
             continue
         out["cases"] += 1
+        try:
+            _seen.add(json.dumps(model, sort_keys=True, default=str))
+        except Exception:
+            _seen.add(repr(model))
+        out["distinct"] = len(_seen)
         out["calls"] = out.get("calls", 0) + int(r.get("calls", 0) or 0)
         if len(out["samples"]) < 3:
             out["samples"].append({k: repr(v)[:200] for k, v in model.items()})
